@@ -49,6 +49,8 @@ def write_evidence(prop, cfg, res):
         "undecided": res["undecided"],
         "out_of_reach": res["out_of_reach"],
         "vacuity_notes": res["vacuity_notes"],
+        "canary_obligation_per_unit": dict(res.get("canaries") or {}, _meaning="refuted = the unit's path condition has a model (non-vacuous); lemma = lemma unit; "
+                                          "no-normal-return-path = the case only raises; undecided = no model found within the cheap budget; discharged would abort the check"),
         "machinery_notes": res["machinery_errors"],
         "cpython_crosscheck": res.get("crosscheck"),
         "known_findings_hit": res["known_hits"],
